@@ -31,6 +31,11 @@ func newRevWorld(n int, o, c []int, p purposeKind) *revWorld {
 
 // newRevWorldURLs lets the caller replace individual URL strings (hostile or non-http URLs).
 func newRevWorldURLs(n int, o, c []int, p purposeKind, override func(kind string, ci, j int) (string, bool)) *revWorld {
+	return newRevWorldRoot(n, o, c, p, override, "p256-a")
+}
+
+// newRevWorldRoot also selects the root key (an RSA root gives certificates, CRLs and OCSP responses of process-independent length).
+func newRevWorldRoot(n int, o, c []int, p purposeKind, override func(kind string, ci, j int) (string, bool), rootKey string) *revWorld {
 	url := func(kind string, ci, j int) string {
 		if override != nil {
 			if u, ok := override(kind, ci, j); ok {
@@ -52,7 +57,7 @@ func newRevWorldURLs(n int, o, c []int, p purposeKind, override func(kind string
 		case i == 0:
 			t, key = pki.LeafTmpl("rev leaf"), "p256-e"
 		case i == n-1:
-			t, key = pki.RootTmpl("rev root"), "p256-a"
+			t, key = pki.RootTmpl("rev root"), rootKey
 		default:
 			t, key = pki.CATmpl(fmt.Sprintf("rev ca%d", i)), caKeyCycle[i%len(caKeyCycle)]
 		}
